@@ -101,4 +101,75 @@ theorem bboxInPixelDomain_of_mul (g ref : GeoBox) (hcrs : g.crs = ref.crs) (hdet
   rw [pixelTranslation_of_mul g ref hcrs hdet tx ty h]
   simp [isAlmostInt_intCast _ _ htol, pyRound_intCast]
 
+/-! ### `fmod`, `split_float`, `is_almost_int` -/
+
+theorem fmod1_spec (x : Rat) :
+    ∃ k : Int, fmod1 x = x - k ∧ ((0 ≤ x ∧ 0 ≤ fmod1 x ∧ fmod1 x < 1) ∨ (x < 0 ∧ -1 < fmod1 x ∧ fmod1 x ≤ 0)) := by
+  unfold fmod1
+  split
+  · refine ⟨x.floor, rfl, Or.inl ⟨‹_›, ?_, ?_⟩⟩
+    · have := Rat.floor_le x; linarith
+    · have := Rat.lt_floor_add_one x; push_cast at this; linarith
+  · refine ⟨x.ceil, rfl, Or.inr ⟨not_le.mp ‹_›, ?_, ?_⟩⟩
+    · have := @Rat.ceil_lt x; linarith
+    · have := @Rat.le_ceil x; linarith
+
+/-- `is_almost_int(x, tol)` accepts only numbers within `tol` of an integer. -/
+theorem isAlmostInt_near (x tol : Rat) (h : isAlmostInt x tol = true) : ∃ k : Int, |x - k| < tol := by
+  unfold isAlmostInt at h
+  obtain ⟨k, hk, hcase⟩ := fmod1_spec x
+  simp only [decide_eq_true_eq, qabs_eq_abs] at h
+  rcases hcase with ⟨_, h0, h1⟩ | ⟨_, h0, h1⟩
+  · rw [abs_of_nonneg h0] at h
+    split at h
+    · refine ⟨k + 1, ?_⟩
+      push_cast
+      rw [abs_lt]; constructor <;> linarith
+    · refine ⟨k, ?_⟩
+      rw [abs_lt]; constructor <;> linarith
+  · rw [abs_of_nonpos h1] at h
+    split at h
+    · refine ⟨k - 1, ?_⟩
+      push_cast
+      rw [abs_lt]; constructor <;> linarith
+    · refine ⟨k, ?_⟩
+      rw [abs_lt]; constructor <;> linarith
+
+/-- ... and `round` then returns that integer when `tol ≤ 1/2`. -/
+theorem pyRound_near (x : Rat) (k : Int) (h : |x - k| < 1 / 2) : pyRound x = k := by
+  rw [abs_lt] at h
+  obtain ⟨h1, h2⟩ := h
+  unfold pyRound
+  have f1 := Rat.floor_le x
+  have f2 := Rat.lt_floor_add_one x
+  have hfl : x.floor = k ∨ x.floor = k - 1 := by
+    have a1 : x.floor < k + 1 := by
+      rw [Rat.floor_lt_iff]; push_cast; linarith
+    have a2 : k - 1 ≤ x.floor := by
+      rw [Rat.le_floor_iff]; push_cast; linarith
+    omega
+  rcases hfl with e | e
+  · simp only [e, h2, if_true]
+  · have h3 : ¬ (x - ((k - 1 : Int) : Rat) < 1 / 2) := by push_cast; linarith
+    have h4 : x - ((k - 1 : Int) : Rat) > 1 / 2 := by push_cast; linarith
+    simp only [e, h3, h4, if_false, if_true]
+    omega
+
+theorem splitFloat_spec (x : Rat) :
+    ∃ w : Int, (splitFloat x).1 = w ∧ (w : Rat) + (splitFloat x).2 = x ∧ |(splitFloat x).2| ≤ 1 / 2 := by
+  obtain ⟨k, hk, hcase⟩ := fmod1_spec x
+  unfold splitFloat
+  simp only [hk]
+  by_cases h1 : x - (k : Rat) > 1 / 2
+  · simp only [h1, if_true]
+    refine ⟨k + 1, by push_cast; ring, by push_cast; ring, ?_⟩
+    rw [abs_le]; rcases hcase with ⟨_, _, h⟩ | ⟨_, _, h⟩ <;> constructor <;> linarith
+  · by_cases h2 : x - (k : Rat) < -(1 / 2)
+    · simp only [h1, h2, if_true, if_false]
+      refine ⟨k - 1, by push_cast; ring, by push_cast; ring, ?_⟩
+      rw [abs_le]; rcases hcase with ⟨_, h, _⟩ | ⟨_, h, _⟩ <;> constructor <;> linarith
+    · simp only [h1, h2, if_false]
+      refine ⟨k, by ring, by ring, ?_⟩
+      rw [abs_le]; constructor <;> linarith
+
 end OdcGeo.C16
